@@ -30,7 +30,7 @@ def queries(tier):
             d["HAS_PORT"] = 1
         qs.append(Query("parse-%s" % name, "c19/parse.c", tus=["platform/posix/posix_resolv_gai.c"], env=ENV,
                         flags=["--no-sat-preprocessor"],
-                        defs=d, unwind=len(pre) + n + len(post) + 3,
+                        defs=d, unwind=max(len(pre) + n + len(post) + 3, 12),
                         unwind_rules=[("nni_url_parse_inline_inner", r"nni_schemes\[i\]", 40), ("nni_url_default_port", r"nni_url_default_ports\[i\]", 16),
                                       ("harness", r"nni_schemes\[i\]", 40)],
                         timeout=900, mem_gb=5, params={"template": pre + "<%d symbolic bytes>" % n + post}))
